@@ -350,10 +350,17 @@ CLAIMED["C30"] = (
     "coordinates in 2-d and 3-d; the three cases of the projection parameter fork the paths. z3 decides for all "
     "coordinates that the returned distance is non-negative and equals the Euclidean distance to the returned "
     "closest point, that the closest point lies on the segment, and that no point of the segment is closer "
-    "(variational inequality of the projection onto a convex set, evaluated at both end points).",
-    "Point-point and point-segment kernels only: 2-d with 1-2 points and 1-2 segments, 3-d with one point and one "
-    "segment; the segment-segment, polygon and overlap routines (closest-feature case splits over nested square "
-    "roots, rotation-based projections) and pointset (scipy cdist) are outside.",
+    "(variational inequality of the projection onto a convex set, evaluated at both end points). "
+    "segment_segment_set is executed in 3-d on SYMBOLIC segment positions for ten enumerated direction configurations "
+    "(skew, crossing, parallel, antiparallel, sets of two, and ill-scaled ones: a shallow crossing next to a 128 times "
+    "longer set member, a 2^-10-long segment against a unit segment, a 64-long one against a unit one); all clamping "
+    "cases fork; z3 decides that both closest points lie on their segments, that the distance is their Euclidean "
+    "distance and that no pair of points is closer (KKT conditions of the convex problem on [0,1]^2).",
+    "Point-point and point-segment kernels: 2-d with 1-2 points and 1-2 segments, 3-d with one point and one "
+    "segment. Segment-segment kernel: directions enumerated, not symbolic (positions in [-2,2]^3), under the stated "
+    "assumption that no candidate numerator of a line parameter lies in (0, 2*SMALL_TOLERANCE), the slab where the "
+    "code snaps parameters to 0 on purpose. segment_set, the polygon and overlap routines (rotation-based "
+    "projections) and pointset (scipy cdist) are outside.",
     "symbolic execution of the real Python source over real terms + SMT (z3 nlsat)",
     "DESIGN.md section 6 C30",
 )
